@@ -143,6 +143,9 @@ f23_S: {#Base23_S, id_S: "i", labels_S: app_S: "x", extra_S: len(labels_S)}`,
 	// conjunctions of bounds and validators in unsorted order, erroneous fields next to good ones
 	/*31*/ `f31_S: {a_S: <10 & >=0 & int, b_S: !="x" & =~"^a" & string, c_S: <=5 & >2 & !=3, d_S: a_S & c_S}`,
 	/*32*/ `f32_S: {bad_S: 1 & 2, s_S: "x" & int, l_S: [1, 2] & [1, 3], ok_S: bad_S | 7, n_S: {m_S: bad_S}}`,
+	// closed structs with pattern constraints: whether a label is allowed is decided by the patterns
+	/*33*/ `#C33_S: {[=~"^x"]: int, [=~"^s"]: string, a_S: 1}
+f33_S: {v_S: #C33_S & {x1_S: 2, s1_S: "q"}, w_S: close({[=~"^k"]: bool, k1_S: true})}`,
 }
 
 // program imports only the builtin packages its fragments use, so that the
@@ -169,11 +172,12 @@ var snippetPaths = [][]string{
 	{"", "u_S", "w_S", "u_S.va_S"}, {"", "sw_S", "e_S", "e_S.p_S"}, {"", "l_S"}, {"", "labels_S", "extra_S"}, {"", "out_S"}, {"", "addr_S", "tags_S", "port_S"}, {"", "b_S", "f_S"}, {"", "l_S", "m_S", "j_S"},
 	{"", "lo_S"}, {"", "d_S"}, {"", "y_S", "z_S"},
 	{"", "a_S", "c_S", "d_S"}, {"", "bad_S", "l_S", "n_S"},
+	{"v_S", "w_S", "v_S", ""},
 }
 
 var opKinds = []string{"lookup", "fields", "fields-all", "walk", "unify", "unify-accept", "fill", "fill-value", "validate", "validate-concrete", "default", "eval",
 	"syntax", "syntax-final", "syntax-all", "decode", "json", "yaml", "equals", "subsume", "expr", "refpath", "allows", "kind", "len", "attrs", "compile", "encode", "encode-type",
-	"list", "exists-concrete", "string-int", "buildexpr", "validator-eq", "validator-eq", "decode-ci", "decode-ci", "fresh-eval", "fresh-eval", "build-file", "build-instance", "expr-syntax", "err-format"}
+	"list", "exists-concrete", "string-int", "buildexpr", "validator-eq", "validator-eq", "decode-ci", "decode-ci", "fresh-eval", "fresh-eval", "build-file", "build-instance", "expr-syntax", "err-format", "let-merge", "let-merge", "allows-many"}
 
 // rare branches where a badly placed preemption matters most
 var hotSites = []string{"runtime.getKey:upgrade", "runtime.LoadBuiltin:before-lock", "cue.cachedTypeFields:miss", "convert.astFromGoType:miss",
@@ -278,6 +282,8 @@ type env struct {
 	// context must be equal to every other, whichever goroutine loaded the package first
 	mu       sync.Mutex
 	compiled map[int][]cue.Value
+	lets     []cue.Value // values with let clauses built by "let-merge" calls of this context
+	nlets    int
 }
 
 var validators = []string{
@@ -460,6 +466,33 @@ func doOp(e *env, op Op) (res string) {
 			fmt.Fprintf(&b, " [%s]", show(a))
 		}
 		return b.String()
+	case "let-merge":
+		// values built in one context, possibly at the same time, each with its own let clauses,
+		// are merged into one struct: every reference must still see its own let
+		e.mu.Lock()
+		e.nlets++
+		k := e.nlets
+		e.mu.Unlock()
+		var src strings.Builder
+		for i := 0; i < 6; i++ {
+			fmt.Fprintf(&src, "{let X = {n: %d, r: %d}, lm_%s_%d_%d: X.n + X.r}\n", 1000*k, i, e.sfx, k, i)
+		}
+		w := e.ctx.CompileString(src.String())
+		e.mu.Lock()
+		e.lets = append(e.lets, w)
+		all := append([]cue.Value{}, e.lets[max(0, len(e.lets)-3):]...) // own value last, merged with the two before it
+		e.mu.Unlock()
+		u := all[0]
+		for _, o := range all[1:] {
+			u = u.Unify(o)
+		}
+		for i := 0; i < 6; i++ {
+			got, err := u.LookupPath(cue.ParsePath(fmt.Sprintf("lm_%s_%d_%d", e.sfx, k, i))).Int64()
+			if err != nil || got != int64(1000*k+i) {
+				return fmt.Sprintf("WRONG: field %d of a value with its own let clause evaluates to %d (%v) after merging, want n+r", i, got, err)
+			}
+		}
+		return "every field sees its own let"
 	case "expr-syntax":
 		o, args := at.Expr()
 		var b strings.Builder
@@ -482,6 +515,12 @@ func doOp(e *env, op Op) (res string) {
 		return fmt.Sprintf("%v %s", r.Exists(), p)
 	case "allows":
 		return fmt.Sprint(at.Allows(cue.Str("zz_"+e.sfx)), at.Allows(cue.AnyString), at.IsClosed())
+	case "allows-many":
+		var b strings.Builder
+		for _, l := range []string{"x9", "y9", "s9", "k9", "a_" + e.sfx, "zz"} {
+			fmt.Fprintf(&b, "%s:%v/%v ", l, at.Allows(cue.Str(l)), at.LookupPath(cue.MakePath(cue.Str(l).Optional())).Exists())
+		}
+		return b.String() + fmt.Sprint(at.Allows(cue.AnyString), at.Allows(cue.AnyIndex), at.IsClosed())
 	case "kind":
 		return fmt.Sprint(at.Kind(), at.IncompleteKind(), at.IsConcrete(), at.Exists())
 	case "len":
